@@ -11,6 +11,10 @@ import sys
 import traceback
 
 
+class HarnessFault(Exception):
+    """An exception raised by /verif code itself inside the child: a harness bug, not a verdict."""
+
+
 class ChildCrashed(Exception):
     """The child died without reporting (signal, os._exit in library code, ...)."""
 
@@ -91,4 +95,17 @@ def call(fn, *args, **kwargs):
         return dict(ok=True, value=payload, exc_type=None, exc_module=None,
                     exc_msg=None, tb=None)
     t, m, msg, tb = payload
-    return dict(ok=False, value=None, exc_type=t, exc_module=m, exc_msg=msg, tb=tb)
+    res = dict(ok=False, value=None, exc_type=t, exc_module=m, exc_msg=msg, tb=tb)
+    if harness_fault(res):
+        raise HarnessFault(f'{m}.{t}: {msg}\n{tb}')
+    return res
+
+
+def harness_fault(res) -> bool:
+    """True if the exception reported by `call` was raised by code of /verif itself
+    (innermost traceback frame under the verification library): a harness bug, not a verdict."""
+    tb = res.get('tb') or ''
+    files = [ln for ln in tb.splitlines() if ln.strip().startswith('File "')]
+    if not files:
+        return False
+    return '/vlib/' in files[-1]
